@@ -74,6 +74,7 @@ type recTransport struct {
 	aheadViol atomic.Int64 // entries that saw started > released
 	aheadBy   atomic.Int64
 	work      func(n int64) // simulated latency
+	errEvery  int64         // > 0: every errEvery-th round trip fails (after its work) with one of transportErrs
 }
 
 func (t *recTransport) RoundTrip(req *http.Request) (*http.Response, error) {
@@ -93,6 +94,9 @@ func (t *recTransport) RoundTrip(req *http.Request) (*http.Response, error) {
 	t.mu.Lock()
 	t.entries = append(t.entries, entryRec{Seq: seq, TEntry: te, TExit: tx})
 	t.mu.Unlock()
+	if t.errEvery > 0 && n%t.errEvery == 0 {
+		return nil, nextTransportErr()
+	}
 	return &http.Response{Status: "200 OK", StatusCode: 200, Proto: "HTTP/1.1", ProtoMajor: 1, ProtoMinor: 1,
 		Header: http.Header{}, Body: io.NopCloser(strings.NewReader("ok")), Request: req}, nil
 }
